@@ -459,7 +459,12 @@ func (r *runner) coqCase() string {
 func runScenario(sc scenario, coq bool) *runner {
 	r := newRunner(coq)
 	for _, o := range sc.Ops {
-		r.step(o)
+		o := o
+		// inner calls are caught where a panic is an observation; anything else that panics is a crash
+		if p := hxlib.Catch(func() { r.step(o) }); p != "" {
+			r.fail("%s at length %d panics: %s", o.K, len(r.xs), p)
+			break
+		}
 	}
 	return r
 }
@@ -485,23 +490,25 @@ type shadow struct {
 	r *runner
 }
 
-func (s *shadow) proof(key int64, from int) [][]byte {
-	hd, err := s.r.acc.Finalize()
-	if err != nil {
-		return nil
-	}
-	mt, err := hexary.NewMerkleTree(s.r.tbk, hd, 0)
-	if err != nil {
-		return nil
-	}
-	p, err := mt.Prove(key, from)
-	if err != nil {
-		return nil
-	}
-	out := make([][]byte, len(p))
-	for i := range p {
-		out[i] = append([]byte(nil), p[i]...)
-	}
+func (s *shadow) proof(key int64, from int) (out [][]byte) {
+	hxlib.Catch(func() {
+		hd, err := s.r.acc.Finalize()
+		if err != nil {
+			return
+		}
+		mt, err := hexary.NewMerkleTree(s.r.tbk, hd, 0)
+		if err != nil {
+			return
+		}
+		p, err := mt.Prove(key, from)
+		if err != nil {
+			return
+		}
+		out = make([][]byte, len(p))
+		for i := range p {
+			out[i] = append([]byte(nil), p[i]...)
+		}
+	})
 	return out
 }
 
@@ -631,7 +638,7 @@ func newBuilder(name string) *builder {
 
 func (b *builder) add(o opSpec) {
 	b.sc.Ops = append(b.sc.Ops, o)
-	b.s.r.step(o)
+	hxlib.Catch(func() { b.s.r.step(o) })
 }
 
 func (b *builder) n() int64 { return int64(len(b.s.r.xs)) }
@@ -668,7 +675,9 @@ func genShort(rg *rand.Rand, n int) scenario {
 	b.add(opSpec{K: "header"})
 	for k := int64(0); k < int64(n); k++ {
 		b.genuine(k)
-		b.mutated(rg, k, rg.Intn(9))
+		if n <= 64 || rg.Intn(4) == 0 {
+			b.mutated(rg, k, rg.Intn(9))
+		}
 	}
 	// every rewind point, downwards
 	for l := int64(n); l >= 0; l-- {
@@ -883,9 +892,9 @@ func main() {
 	hxlib.Main(hxlib.Spec{
 		ID: "C28",
 		Rule: "a case is an operation script on one hexary.Accumulator over a map database (Add, GetMerkleHeader, Finalize, SetLen, reopening on the same buckets) with MerkleTree.Prove and MerkleTree.Add of genuine, partial and altered proofs. " +
-			"short: lengths 0..3, around 16/32/48/256/272 and random ones up to 300, header after (nearly) every Add, a full proof and one altered proof for every index, then every rewind point downwards; cross: lengths 15..17, 255..257, 4095..4097 (thorough: 65535..65537) with boundary keys, a builder fed partial proofs in key order, rewinds to the boundaries; jump: direct rewinds followed by growing again with other hashes; random scripts. " +
+			"short: lengths 0..3, around 16/32/48/256/272 and random ones up to 300, header after (nearly) every Add, a full proof for every index and an altered proof for every index (every fourth on average beyond length 64), then every rewind point downwards; cross: lengths 15..17, 255..257, 4095..4097 (thorough: 65535..65537) with boundary keys, a builder fed partial proofs in key order, rewinds to the boundaries; jump: direct rewinds followed by growing again with other hashes; random scripts. " +
 			"Non-trivial: the script rewinds to a length strictly between 0 and the current length, or proves keys of a sequence longer than 16.",
-		Shard:    6,
+		Shard:    3,
 		Preamble: "From Coq Require Import Uint63.\nFrom GoloopRun Require Import Run_C28.",
 		Gen:      gen,
 		Replay:   replay,
